@@ -193,7 +193,17 @@ class Cmp:
             if abs(na - nb) <= tol:
                 self.tolerant += 1
                 return None
-            return f"{path}: impl={float(na)!r} model={float(nb)!r} (|Δ|={float(abs(na-nb)):.3e})"
+            def _f(v):  # huge integers (e.g. an all-digit bit string parsed as a number) overflow float()
+                try:
+                    return repr(float(v))
+                except OverflowError:
+                    t = str(v)
+                    return f"{t[:12]}…({len(t)} digits)"
+            try:
+                d = f"{float(abs(na - nb)):.3e}"
+            except OverflowError:
+                d = "huge"
+            return f"{path}: impl={_f(na)} model={_f(nb)} (|Δ|={d})"
         if isinstance(a, (list, tuple)) and isinstance(b, (list, tuple)):
             if len(a) != len(b):
                 return f"{path}: length impl={len(a)} model={len(b)}"
